@@ -74,6 +74,18 @@ impl<'w> FnTr<'w> {
             },
             Expr::Path(p) => self.tr_path(e, p, exp),
             Expr::Field(f) => self.tr_field(e, f),
+            Expr::Index(ix) if matches!(strip(&ix.index), Expr::Range(_)) => {
+                // `&s[a..b]` of a string: BYTE offsets (`strSlice`; `none` = out of range / not on a char boundary: a panic)
+                let base = self.tr_expr(&ix.expr, None)?;
+                if base.ty != RTy::Str { return Err(self.err(e, "range indexing is only supported on strings")); }
+                let r = match strip(&ix.index) { Expr::Range(r) if matches!(r.limits, syn::RangeLimits::HalfOpen(_)) => r, _ => return Err(self.err(e, "only `a..b` ranges are supported")) };
+                let (a, b) = match (&r.start, &r.end) { (Some(a), Some(b)) => (&**a, &**b), _ => return Err(self.err(e, "range without both bounds")) };
+                let us = RTy::Int(IntTy::Usize);
+                let ax = self.tr_expr(a, Some(&us))?;
+                let bx = self.tr_expr(b, Some(&us))?;
+                if ax.ty != us || bx.ty != us { return Err(self.err(e, "range bounds must be usize")); }
+                Ok(Ex::monadic(format!("strSlice {} {} {}", base.a(), ax.a(), bx.a()), RTy::Str))
+            }
             Expr::Index(ix) => {
                 let base = self.tr_expr(&ix.expr, None)?;
                 let idx = self.tr_expr(&ix.index, Some(&RTy::Int(IntTy::Usize)))?;
@@ -126,7 +138,11 @@ impl<'w> FnTr<'w> {
             }
             // `[a, b, ..]` (array constant): a list
             Expr::Array(a) => {
-                let el = match exp { Some(RTy::VecList(el)) | Some(RTy::VecFn(el)) => (**el).clone(), _ => return Err(self.err(e, "array literal where no array type is expected")) };
+                let el = match exp {
+                    Some(RTy::VecList(el)) | Some(RTy::VecFn(el)) => (**el).clone(),
+                    // no expected type: the type of the first element (`[('K', flag), ..]`)
+                    _ => match a.elems.first() { Some(x0) => self.tr_expr(x0, None).map_err(|_| self.err(e, "array literal where no array type is expected"))?.ty, None => return Err(self.err(e, "empty array literal where no array type is expected")) },
+                };
                 let mut xs = vec![];
                 for x in &a.elems {
                     let v = self.tr_expr(x, Some(&el))?;
@@ -200,6 +216,15 @@ impl<'w> FnTr<'w> {
                 Ok(Ex::atom(format!("({}, {})", n, d), RTy::F64Lit))
             }
             Lit::Bool(b) if !neg => Ok(Ex::atom(if b.value { "true" } else { "false" }, RTy::Bool)),
+            // a string literal: the list of its chars, written out
+            Lit::Str(st) if !neg => {
+                let v = st.value();
+                if v.chars().count() > 80 { return Err(self.err(node, "string literal longer than 80 chars")); }
+                let cs: Vec<String> = v.chars().map(|ch| if ch.is_ascii_graphic() && ch != '\'' && ch != '\\' { format!("'{}'", ch) } else { format!("Char.ofNat {}", ch as u32) }).collect();
+                Ok(Ex::atom(if cs.is_empty() { "([] : List Char)".to_string() } else { format!("[{}]", cs.join(", ")) }, RTy::Str))
+            }
+            // a byte literal `b'a'`
+            Lit::Byte(b) if !neg => Ok(Ex::atom(format!("{}", b.value()), RTy::Int(IntTy::U8))),
             Lit::Char(c) if !neg => {
                 let ch = c.value();
                 let text = if ch.is_ascii_graphic() && ch != '\'' && ch != '\\' { format!("'{}'", ch) } else { format!("(Char.ofNat {})", ch as u32) };
@@ -411,6 +436,40 @@ impl<'w> FnTr<'w> {
             return Err(self.err(e, "tuple field of a value that is not a tuple"));
         }
         let field = match &f.member { syn::Member::Named(i) => i.to_string(), _ => return Err(self.err(e, "tuple field")) };
+        // `r.start` / `r.end` of a `Range` (a variable or a field path: translating it speculatively has no side effect)
+        if field == "start" || field == "end" {
+            fn simple(e: &Expr) -> bool { match strip(e) { Expr::Path(_) => true, Expr::Field(f) => simple(&f.base), _ => false } }
+            if simple(&f.base) {
+                let saved = self.lparams.len();
+                match self.tr_expr(&f.base, None) {
+                    Ok(base) if matches!(base.ty, RTy::Range(_)) => {
+                        let el = match &base.ty { RTy::Range(t) => (**t).clone(), _ => unreachable!() };
+                        let mut r = Ex::atom(format!("{}.{}", base.a(), if field == "start" { 1 } else { 2 }), el);
+                        r.pure = base.pure;
+                        return Ok(r);
+                    }
+                    _ => { self.lparams.truncate(saved); }
+                }
+            }
+        }
+        // an OPAQUE field of a value of an opaque type (`square.mask`): the opaque FUNCTION parameter `Type_field` applied to it
+        if let Some(xn) = path_ident(&f.base) {
+            if let (Some(RTy::Opaque(tn)), What::Fn { opaque, .. }) = (self.lookup(&xn).map(|v| v.ty.clone()), &self.target.what) {
+                if let Some(base) = tn.strip_suffix('T') {
+                    if let Some(o) = opaque.iter().find(|o| o.recv == base && o.method == field) {
+                        let ty: syn::Type = syn::parse_str(o.ret).map_err(|_| self.err(e, "bad opaque type in the table"))?;
+                        let ret = self.resolve_type(&ty)?;
+                        let v = self.lookup(&xn).cloned().unwrap();
+                        self.note_use(&v.lean);
+                        let name = format!("{}_{}", base, field);
+                        let fty = RTy::Opaque(format!("{} → {}", tn, ret.lean()));
+                        let n = self.lparam(&name, fty, Origin::ParamMethod(usize::MAX, name.clone()), (usize::MAX - 1, 1, self.lparams.len()))?;
+                        return Ok(Ex::pure(format!("{} {}", n, v.lean), ret));
+                    }
+                    return Err(self.err(e, &format!("field `{}` of the opaque type `{}` is not listed as opaque for this function", field, base)));
+                }
+            }
+        }
         // field of a flattened struct LOCAL: a variable of its own
         if let Some(xn) = path_ident(&f.base) {
             if let Some(xv) = self.lookup(&xn).cloned() {
@@ -501,7 +560,7 @@ impl<'w> FnTr<'w> {
                 if l.ty != r.ty { return Err(self.err(e, &format!("comparison of {} with {}", l.ty.rust(), r.ty.rust()))); }
                 match (&k, &l.ty) {
                     (K::Cmp(_), RTy::Int(_)) | (K::Cmp(_), RTy::Char) | (K::Cmp(_), RTy::U64) => {}
-                    (K::EqNe(_), RTy::U64) | (K::EqNe(_), RTy::Int(_)) | (K::EqNe(_), RTy::Char) | (K::EqNe(_), RTy::Bool) | (K::EqNe(_), RTy::Enum(_)) => {}
+                    (K::EqNe(_), RTy::U64) | (K::EqNe(_), RTy::Int(_)) | (K::EqNe(_), RTy::Char) | (K::EqNe(_), RTy::Bool) | (K::EqNe(_), RTy::Enum(_)) | (K::EqNe(_), RTy::Str) => {}
                     _ => return Err(self.err(e, &format!("comparison unsupported at type {}", l.ty.rust()))),
                 }
                 let op = match k { K::Cmp(o) => o, K::EqNe(true) => "=", _ => "≠" };
@@ -574,13 +633,49 @@ impl<'w> FnTr<'w> {
                     let fty = self.resolve_field_type(&fty, &sn).map_err(|m| self.err(e, &m))?;
                     let x = self.tr_expr(&fv.expr, Some(&fty))?;
                     if !x.ty.compat(&fty) { return Err(self.err(e, &format!("field `{}`: expected {}, found {}", fname, fty.rust(), x.ty.rust()))); }
-                    if !x.pure { return Err(self.err(e, "struct literal with a panicking field initialiser (bind it with `let` first)")); }
+                    // a panicking initialiser is bound first, in SOURCE order (the tuple below is in declaration order); only where
+                    // the caller emits the pending statements (the literal is the value the function returns)
+                    let x = if x.pure { x } else {
+                        if !self.struct_lit_pending_ok { return Err(self.err(e, "struct literal with a panicking field initialiser (bind it with `let` first)")); }
+                        let t = self.fresh(&format!("field_{}", fname));
+                        self.pending.push(crate::stmt::bind_line(&t, &x));
+                        Ex::atom(t, x.ty.clone())
+                    };
                     if vals.iter().any(|(n, _)| *n == fname) { return Err(self.err(e, "field given twice")); }
                     vals.push((fname, x));
                 }
                 if vals.len() != decl.len() { return Err(self.err(e, "wrong number of fields")); }
                 let parts: Vec<String> = decl.iter().map(|(n, _)| vals.iter().find(|(m, _)| m == n).unwrap().1.text.clone()).collect();
                 return Ok(Ex::atom(crate::stmt::tuple(&parts), RTy::Flat(sn)));
+            }
+        }
+        // `Self { .. }` / `T { .. }` of a REGENERATED struct: a structure instance; the fields are written (and their nested actions run)
+        // in SOURCE order, like the Rust evaluates them
+        if en.is_none() {
+            let sn = if variant == "Self" { self.target.container.ns().map(|s| s.to_string()) } else { Some(variant.clone()) };
+            if let Some(sn) = sn {
+                if let Some(si) = self.world.structs.get(&sn).cloned() {
+                    if si.lean_module.is_some() && !(self.bits && !si.bits) {
+                        let mut parts = vec![];
+                        let mut pure = true;
+                        for fv in &s.fields {
+                            let fname = match &fv.member { syn::Member::Named(i) => i.to_string(), _ => return Err(self.err(e, "tuple struct literal")) };
+                            let fty = si.fields.iter().find(|(n, _)| *n == fname).map(|(_, t)| t.clone()).ok_or_else(|| self.err(e, "unknown field"))?;
+                            let fty = self.struct_field_type(&fty, &sn).map_err(|m| self.err(e, &m))?;
+                            let x = self.tr_expr(&fv.expr, Some(&fty))?;
+                            if !x.ty.compat(&fty) { return Err(self.err(e, &format!("field `{}`: expected {}, found {}", fname, fty.rust(), x.ty.rust()))); }
+                            if parts.iter().any(|(n, _): &(String, String)| *n == fname) { return Err(self.err(e, "field given twice")); }
+                            pure &= x.pure;
+                            parts.push((fname, x.text));
+                        }
+                        if parts.len() != si.fields.len() { return Err(self.err(e, "wrong number of fields")); }
+                        let ty = RTy::Struct(sn.clone());
+                        self.note_ty_dep(&ty);
+                        let mut r = Ex::atom(format!("({{ {} }} : {})", parts.iter().map(|(n, t)| format!("{} := {}", lean_ident(n), t)).collect::<Vec<_>>().join(", "), ty.lean()), ty);
+                        r.pure = pure;
+                        return Ok(r);
+                    }
+                }
             }
         }
         let (en, fields) = self.find_variant(e, en.as_deref(), &variant)?.ok_or_else(|| self.err(e, "struct literal of an unregistered type / variant"))?;
